@@ -222,6 +222,13 @@ class RefsEngine(Engine):
             return class_val(v.name)
         raise Unsupported(f"value of {type(v).__name__} as opaque object")
 
+    def val_ite(self, c, a, b, cx):
+        try:
+            return super().val_ite(c, a, b, cx)
+        except Unsupported:
+            # two values of different shapes (tuples of different length, ...): the conditional as an opaque object
+            return PyObj(z3.If(c, self.as_v(a), self.as_v(b)))
+
     def truth_hook(self, v, cx):
         if isinstance(v, PyObj):
             cx.assume(z3.Implies(RS.is_ref(v.t), truthy(v.t)))      # objects without __bool__/__len__ are true
